@@ -137,6 +137,16 @@ EQUIV += [
     ("E16", "penguin-mux/src/stream_tools/copy_bidirectional.rs", "                    let processed = ready!(this.other.as_mut().poll_write(cx, new_buf))?;", "                    let written = ready!(this.other.as_mut().poll_write(cx, new_buf))?;\n                    let processed = written;", ["C13", "C01", "C02"]),
     ("E17", "penguin-mux/src/task.rs", "            while let Some(message) = tx_msg_rx.recv().await {", "            loop {\n                let Some(message) = tx_msg_rx.recv().await else { break };", ["C08"]),
 ]
+EQUIV += [
+    ("E18", "penguin/src/server/service.rs", "        if req.uri().path() == \"/ws\" {", "        let request_path = req.uri().path();\n        if request_path == \"/ws\" {", ["C14"]),
+    ("E19", "penguin-mux/src/stream_tools/copy_bidirectional.rs", "        Poll::Ready(Ok((ready!(r), ready!(w))))", "        let r = ready!(r);\n        let w = ready!(w);\n        Poll::Ready(Ok((r, w)))", ["C13"]),
+    ("E20", "penguin-mux/src/timing.rs", "        let old = self.current.min(self.max);", "        let old = core::cmp::min(self.current, self.max);", ["C19"]),
+    ("E21", "cow-bytes/src/pbuf.rs", "            remaining -= this_len;\n            truncate_index += 1;", "            remaining = remaining - this_len;\n            truncate_index += 1;", ["C20"]),
+    ("E22", "penguin/src/client/mod.rs", "    let options = penguin_mux::config::Options::new()\n        .keepalive_interval(args.keepalive)\n        .keepalive_timeout(args.keepalive_timeout);", "    let options = penguin_mux::config::Options::new();\n    let options = options.keepalive_interval(args.keepalive);\n    let options = options.keepalive_timeout(args.keepalive_timeout);", ["C16", "C19"]),
+    ("E23", "penguin-mux/src/task.rs", "                if let Err(e) = self.datagram_tx.try_send(datagram) {\n                    match e {\n                        TrySendError::Full(_) => warn!(\"Dropped datagram: {e}\"),\n                        TrySendError::Closed(_) => return Err(Error::Closed),\n                    }\n                }", "                match self.datagram_tx.try_send(datagram) {\n                    Ok(()) => {}\n                    Err(TrySendError::Closed(_)) => return Err(Error::Closed),\n                    Err(e @ TrySendError::Full(_)) => warn!(\"Dropped datagram: {e}\"),\n                }", ["C11", "C10"]),
+    ("E24", "penguin/src/client/maybe_retryable.rs", "            Self::Tungstenite(e) => e.retryable(),\n            Self::TcpConnect(e) => e.retryable(),\n            Self::Tls(e) => e.retryable(),\n            Self::Mux(e) => e.retryable(),\n            Self::HandshakeTimeout | Self::StreamRequestTimeout | Self::ServerDisconnected => true,", "            Self::HandshakeTimeout | Self::StreamRequestTimeout => true,\n            Self::ServerDisconnected => true,\n            Self::Mux(e) => e.retryable(),\n            Self::Tungstenite(e) => e.retryable(),\n            Self::TcpConnect(e) => e.retryable(),\n            Self::Tls(e) => e.retryable(),", ["C19"]),
+    ("E25", "penguin/src/server/websocket.rs", "                            mpsc::error::TrySendError::Closed(_) => {\n                                // This client has been pruned, so we should\n                                // remove it from the map and hopefully\n                                // the client will try again.\n                                trace!(\"UDP client {flow_id} has been pruned\");\n                                udp_clients.remove(&flow_id);\n                            }", "                            mpsc::error::TrySendError::Closed(_) => {\n                                udp_clients.remove(&flow_id);\n                                trace!(\"UDP client {flow_id} has been pruned\");\n                            }", ["C01"]),
+]
 EQUIV = [e for e in EQUIV if e[0] not in ("E07", "E10")]
 
 
